@@ -116,6 +116,24 @@ class LifecycleMonitor(Monitor):
             if kind_ in self.inflight_mod.get(vid, []):
                 self.inflight_mod[vid].remove(kind_)
                 self.answered_early.add((id(cur[-1]), vid))
+        if cur and p in ("CANCELLING", "UPDATING", "REPLACING") and n != p and cur[-1].package_type.name == "PLACE" and self.inflight_mod.get(vid) and any(order is o for o in cur[-1]._orders):
+            # (round 21, C03-l) the failure recovery of the order's PLACE package (retries used up while the order stream had
+            # already acknowledged the bet and the strategy had sent a modification) must leave an order alone whose own
+            # cancel / update / replace is outstanding. Only the recovery path is judged: a late *successful* place reply that
+            # overwrites such a state is a different, known race of the unchanged tree (observed, not claimed).
+            import sys as _sys
+
+            f, in_recovery = _sys._getframe(1), False
+            for _ in range(14):
+                if f is None:
+                    break
+                if f.f_code.co_name == "reset_orders":
+                    in_recovery = True
+                    break
+                f = f.f_back
+            self.res.probes["c03.place_package_changes_order_with_modification_outstanding%s" % (".in_recovery" if in_recovery else "")] += 1
+            if in_recovery:
+                self.violate(self.P, "C03.one-in-flight", "in-flight-order-released-by-the-recovery-of-its-place-package:%s->%s" % (p, n), order=vid, outstanding=list(self.inflight_mod.get(vid, [])), status_log=[s.name for s in order.status_log][-6:])
         if cur and p in ("CANCELLING", "UPDATING", "REPLACING") and n != p and all(order is not o for o in cur[-1]._orders):
             # the reply to a package is being applied on this thread, and it changes the state of an order that is NOT in
             # that package while that order's own request is outstanding
